@@ -152,7 +152,17 @@ def outcomeStr : Outcome → String
 def jRow (r : Row Nat) : Json := jArr [jI r.iter, jN r.time, jN r.fields]
 def jCb (c : CbRec W) : Json := jArr [jI c.itnum, jN c.world.1, jN c.enter, jN c.leave]
 
-def sessionRun (tb : Tables) (pinnedItnum : Bool) : Drv W Nat String → List SOp → List Json
+def jEv : PrintEv → Json
+  | .header => jS "header"
+  | .row n nl => jArr [jN n, jB nl]
+  | .newline => jS "newline"
+
+/-- display state carried along a session (the `Drv` record itself knows nothing about printing) -/
+structure DispSt where
+  opts : DisplayOpts
+  st : Disp
+
+def sessionRun (tb : Tables) (pinnedItnum : Bool) (ds : DispSt) : Drv W Nat String → List SOp → List Json
   | _, [] => []
   | d, .solve m cb :: rest =>
     let d0 := d.setMaxiter m
@@ -163,7 +173,14 @@ def sessionRun (tb : Tables) (pinnedItnum : Bool) : Drv W Nat String → List SO
     -- the pinned tree's counter defect, reported separately (classification of a known finding only)
     let itPinned : Int := if o == .ok && m ≤ 0 then solvePinnedItnum m d1.itnum else d1.itnum
     let _ := pinnedItnum
+    -- printing: one `insert` per new record, then `end()` unless the NaN stop raised
+    let k := d1.rows.length - d.rows.length
+    let s1 := dispInserts ds.opts k ds.st
+    let s2 := if o == .ok then dispEnd ds.opts s1 else s1
+    let printed := s2.out.drop ds.st.out.length
+    let ds := { ds with st := s2 }
     let out := jObj [("outcome", jS (outcomeStr o)), ("itnum", jI d1.itnum), ("itnum_pinned", jI itPinned),
+      ("printed", jArr (printed.map jEv)),
       ("itnum_late", jI itLate), ("maxiter", jI d1.maxiter),
       ("clock", jN d1.clock),
       ("rows", jArr ((d1.rows.drop d.rows.length).map jRow)),
@@ -174,17 +191,17 @@ def sessionRun (tb : Tables) (pinnedItnum : Bool) : Drv W Nat String → List SO
       ("running", jB (match d1.timer.store.get d1.timer.dflt with
                       | some e => e.t0.isSome
                       | none => false))]
-    out :: sessionRun tb pinnedItnum d1 rest
+    out :: sessionRun tb pinnedItnum ds d1 rest
   | d, .step :: rest =>
     let d1 := d.userStep (envOf tb)
     jObj [("itnum", jI d1.itnum), ("clock", jN d1.clock), ("steps", jN d1.world.1),
-          ("nrows", jN d1.rows.length)] :: sessionRun tb pinnedItnum d1 rest
+          ("nrows", jN d1.rows.length)] :: sessionRun tb pinnedItnum ds d1 rest
   | d, .tick n :: rest =>
     let d1 := d.tick n
     jObj [("clock", jN d1.clock), ("elapsed", jN (d1.timer.elapsedDefault true d1.clock))] ::
-      sessionRun tb pinnedItnum d1 rest
+      sessionRun tb pinnedItnum ds d1 rest
   | d, .nanstop v :: rest =>
-    jObj [] :: sessionRun tb pinnedItnum { d with nanstop := v } rest
+    jObj [] :: sessionRun tb pinnedItnum ds { d with nanstop := v } rest
 
 def maxSteps : List SOp → Nat
   | [] => 0
@@ -233,7 +250,13 @@ def handler : Handler := fun op j =>
       let tb : Tables := ⟨st.toArray, ct.toArray, vs.toArray, ctl.toArray⟩
       let o : Scico.Driver.Options := { iter0 := ← fInt? j "iter0", maxiter := 100, nanstop := ← fBool? j "nanstop" }
       let d : Drv W Nat String := Drv.init (0, 0) o "main" "all" (← fNat? j "clock")
-      some (ok (jArr (sessionRun tb false d ops)))
+      let dopts : DisplayOpts ← match field? j "disp" with
+        | none => some {}
+        | some dj => do
+          some { display := ← fBool? dj "display", period := ← fNat? dj "period",
+                 shiftCycles := ← fBool? dj "shift_cycles", overwrite := ← fBool? dj "overwrite" }
+      if dopts.period = 0 then none
+      else some (ok (jArr (sessionRun tb false ⟨dopts, Disp.init dopts⟩ d ops)))
   | "kwargs" => do
     let kw ← (← fList? j "kw").mapM (fun p => do
       let l ← getList? p
